@@ -77,7 +77,7 @@ func loadBags(path string) (*specBags, error) {
 		switch v.Class {
 		case "roots0":
 			sb.roots0 = append(sb.roots0, g)
-		case "roots2", "roots2same":
+		case "roots2", "roots2same", "mp_pair":
 			sb.rootsN = append(sb.rootsN, g)
 			sb.byType[v.Type] = append(sb.byType[v.Type], g)
 		default:
@@ -106,8 +106,8 @@ func bocOf(n *node) []byte {
 // encoding and mutations of its bytes, and the degenerate ones.
 func (sb *specBags) variants(rng *rand.Rand, typ string, t reflect.Type, n int) []bag {
 	var out []bag
-	for _, g := range sb.roots0 {
-		out = append(out, g)
+	for k := 0; k < 3 && len(sb.roots0) > 0; k++ {
+		out = append(out, sb.roots0[rng.Intn(len(sb.roots0))])
 	}
 	out = append(out, bag{nil, "empty"}, bag{[]byte{0xb5, 0xee, 0x9c, 0x72}, "garbage"}, bag{[]byte("not a bag of cells at all"), "garbage"})
 	if t != nil {
@@ -129,6 +129,18 @@ func (sb *specBags) variants(rng *rand.Rand, typ string, t reflect.Type, n int) 
 	gs := sb.byType[typ]
 	for k := 0; k < n && len(gs) > 0; k++ {
 		out = append(out, gs[rng.Intn(len(gs))])
+	}
+	// the bags in which the specification put the value under a Merkle-proof cell (alone / as second root)
+	for _, cls := range []string{"specgen:mp_root", "specgen:mp_root", "specgen:mp_pair", "specgen:mp_pair"} {
+		var c []bag
+		for _, g := range gs {
+			if g.class == cls {
+				c = append(c, g)
+			}
+		}
+		if len(c) > 0 {
+			out = append(out, c[rng.Intn(len(c))])
+		}
 	}
 	for k := 0; k < 2 && len(sb.rootsN) > 0; k++ {
 		out = append(out, sb.rootsN[rng.Intn(len(sb.rootsN))])
